@@ -189,10 +189,57 @@ func (c *Ctx) c16elements() c16set {
 				ps[i] = ps[i].Add(vector3.New(float64(c.Rng.Intn(3)-1), float64(1+c.Rng.Intn(2)), float64(c.Rng.Intn(3)-1)))
 			}
 		}
-		m := modeling.NewLineStripMesh(map[string][]v3{modeling.PositionAttribute: ps}, nil, nil, nil)
+		// the strip's INDEX list: identity (NewLineStripMesh), a closed loop, the reversed strip, or a walk over a shared vertex
+		// array that skips and revisits vertices — segment i joins ps[idx[i]] and ps[idx[i+1]]
+		idx := make([]int, n+1)
+		for i := range idx {
+			idx[i] = i
+		}
+		var m modeling.Mesh
+		switch c.Rng.Intn(5) {
+		case 0, 1:
+			m = modeling.NewLineStripMesh(map[string][]v3{modeling.PositionAttribute: ps}, nil, nil, nil)
+			c.Note("seg.index.identity")
+		case 2:
+			if n >= 3 {
+				idx[n] = 0 // closed loop 0,1,…,n-1,0 (vertex n unused)
+			}
+			m = modeling.NewMesh(modeling.LineStripTopology, idx).SetFloat3Attribute(modeling.PositionAttribute, ps)
+			c.Note("seg.index.loop")
+		case 3:
+			for i := range idx {
+				idx[i] = n - i
+			}
+			m = modeling.NewMesh(modeling.LineStripTopology, idx).SetFloat3Attribute(modeling.PositionAttribute, ps)
+			c.Note("seg.index.reversed")
+		default:
+			for i := range idx {
+				for tries := 0; ; tries++ {
+					idx[i] = c.Rng.Intn(n + 1)
+					if i == 0 || ps[idx[i]] != ps[idx[i-1]] || tries > 50 {
+						break
+					}
+				}
+			}
+			m = modeling.NewMesh(modeling.LineStripTopology, idx).SetFloat3Attribute(modeling.PositionAttribute, ps)
+			c.Note("seg.index.walk")
+		}
+		degenerate := false
 		parts := make([]string, n)
 		for i := 0; i < n; i++ {
-			parts[i] = c16v(ps[i]) + " " + c16v(ps[i+1])
+			if ps[idx[i]] == ps[idx[i+1]] {
+				degenerate = true
+			}
+			parts[i] = c16v(ps[idx[i]]) + " " + c16v(ps[idx[i+1]])
+		}
+		if degenerate { // a zero-length segment (NaN closest point): fall back to the identity strip
+			for i := range idx {
+				idx[i] = i
+			}
+			m = modeling.NewLineStripMesh(map[string][]v3{modeling.PositionAttribute: ps}, nil, nil, nil)
+			for i := 0; i < n; i++ {
+				parts[i] = c16v(ps[i]) + " " + c16v(ps[i+1])
+			}
 		}
 		c.Note("set.seg." + dist)
 		m, attr := c.c16alt(m, ps)
@@ -760,12 +807,67 @@ func (c *Ctx) c16sphereCase() {
 	}
 }
 
+// axis-aligned FLAT triangles (zero-volume boxes): a g×g grid of cells in a coordinate plane, or the six faces of a box
+func (c *Ctx) c16flatMesh() (modeling.Mesh, []v3, []int) {
+	var verts []v3
+	var idx []int
+	quad := func(a, b, d, e v3) {
+		base := len(verts)
+		verts = append(verts, a, b, d, e)
+		idx = append(idx, base, base+1, base+2, base, base+2, base+3)
+	}
+	axis := c.Rng.Intn(3)
+	mk := func(u, v, w float64) v3 {
+		switch axis {
+		case 0:
+			return vector3.New(w, u, v)
+		case 1:
+			return vector3.New(u, w, v)
+		default:
+			return vector3.New(u, v, w)
+		}
+	}
+	if c.Rng.Intn(3) == 0 { // cube faces
+		lo, hi := float64(c.Rng.Intn(5)-4), float64(1+c.Rng.Intn(4))
+		for ax := 0; ax < 3; ax++ {
+			axis = ax
+			for _, w := range []float64{lo, hi} {
+				quad(mk(lo, lo, w), mk(hi, lo, w), mk(hi, hi, w), mk(lo, hi, w))
+			}
+		}
+		c.Note("bvh.flat.cube")
+	} else {
+		g := 1 + c.Rng.Intn(4)
+		cell := []float64{0.5, 1, 2.5}[c.Rng.Intn(3)]
+		w := float64(c.Rng.Intn(7) - 3)
+		o := float64(c.Rng.Intn(5) - 2)
+		for i := 0; i < g; i++ {
+			for j := 0; j < g; j++ {
+				u0, v0 := o+float64(i)*cell, o+float64(j)*cell
+				quad(mk(u0, v0, w), mk(u0+cell, v0, w), mk(u0+cell, v0+cell, w), mk(u0, v0+cell, w))
+			}
+		}
+		c.Note("bvh.flat.grid")
+	}
+	normals := make([]v3, len(verts))
+	for i := range normals {
+		normals[i] = vector3.New(0., 1., 0.)
+	}
+	return modeling.NewTriangleMesh(idx).
+		SetFloat3Attribute(modeling.PositionAttribute, verts).
+		SetFloat3Attribute(modeling.NormalAttribute, normals), verts, idx
+}
+
 func (c *Ctx) c16bvhCase() {
 	n := 1 + c.Rng.Intn(24)
 	if c.Rng.Intn(5) == 0 {
 		n = 1 + c.Rng.Intn(3)
 	}
 	m, verts, idx := c.c16triMesh(n)
+	if c.Rng.Intn(3) == 0 {
+		m, verts, idx = c.c16flatMesh()
+		n = len(idx) / 3
+	}
 	// one Hittable per triangle (a one-triangle BVH node: box test, then the triangle)
 	singles := make(rendering.HitList, n)
 	pos := verts
